@@ -3150,6 +3150,7 @@ func (h *RequestHeader) parseHeaders(buf []byte, blockEnd int) (int, error) {
 
 	contentLengthSeen := false
 	transferEncodingSeen := false
+	transferEncodingIdentity := false
 	hostSeen := false
 
 	var s headerScanner
@@ -3281,6 +3282,8 @@ func (h *RequestHeader) parseHeaders(buf []byte, blockEnd int) (int, error) {
 				if isChunked {
 					h.contentLength = -1
 					h.h = setArgBytes(h.h, strTransferEncoding, strChunked, argsHasValue)
+				} else {
+					transferEncodingIdentity = true
 				}
 				continue
 			}
@@ -3303,6 +3306,14 @@ func (h *RequestHeader) parseHeaders(buf []byte, blockEnd int) (int, error) {
 
 	if h.contentLength < 0 {
 		h.contentLengthBytes = h.contentLengthBytes[:0]
+	}
+	if transferEncodingSeen && (contentLengthSeen || transferEncodingIdentity) {
+		// RFC 9112 section 6.1: a request carrying both Transfer-Encoding and
+		// Content-Length, or a Transfer-Encoding that isn't chunked, has
+		// ambiguous framing (request smuggling). It may be processed, but the
+		// connection must be closed after responding to it, no matter what
+		// its Connection header asks for.
+		h.connectionClose = true
 	}
 	if h.noHTTP11 && !h.connectionClose {
 		// close connection for non-http/1.1 request unless 'Connection: keep-alive' is set.
